@@ -10,6 +10,8 @@ RULE = (
     'in-handler awaits; a passive probe handler on every bus marks the start of each event. Oracle: for every pair '
     'enqueued e1 < e2 on a bus, e2 may start first only if at that instant a handler is suspended awaiting e2 or an '
     'ancestor of e2; on a serial bus no event starts while a handler of another event on that bus runs un-suspended. '
+    'A quarter of the cases come from a second profile (always timeouts, half of the buses parallel, mostly awaited children) and a small '
+    'enumerated family (144 scenarios) covers the shape "awaiter cut off by its timeout while two handlers of the awaited event are in flight on a parallel bus". '
     'Non-trivial = some bus had >= 2 accepted-but-not-started events at once; distinct by canonical JSON.'
 )
 ASSUMPTIONS = ['virtual time; harness-side lineage (who dispatched what) is used, not event_children', 'a handler cut off by a timeout counts as running until its coroutine has finished unwinding', 'no stop / capacity overflow']
@@ -35,7 +37,45 @@ def budget(tier):
 def strategy(tier):
     from bvt.props._scen import mixed
 
-    return mixed(scenario(P), tier, ID)
+    return _st.integers(0, 3).flatmap(lambda k: scenario(P_CUT) if k == 0 else mixed(scenario(P), tier, ID))
+
+
+@_st.composite
+def _timeouts_always(draw):
+    to = {str(t): draw(_st.sampled_from([0.13, 0.27, 0.41])) for t in range(4) if draw(_st.integers(0, 3))}
+    return to or {'0': 0.27}
+
+
+# A second profile for one deep shape: a handler on a serial bus awaits an event that a parallel_handlers bus processes inline, and is
+# then cut off by its timeout while several handlers of that event are in flight; whatever those handlers do afterwards must not make
+# a serial bus start a later event while an earlier one is being handled.
+P_CUT = Profile(timeouts=_timeouts_always(), cleanup=0.15, probe=True, min_buses=2, max_buses=3, par=0.5, min_handlers=2, max_handlers_per_level=3,
+                actor_ops=['disp', 'disp', 'burst', 'sleep'], max_actor_ops=5, raises=0.0, maxdepth=[2], wild=0.2, fwd=0.15, sync=0.1,
+                modes=['await', 'await', 'await', 'later'], ops=['sleep', 'sleep', 'disp', 'disp', 'disp', 'awaitall'], durs=[0.05, 0.1, 0.25, 0.5])
+
+
+def enumerate_cases(tier, seed):
+    """A small enumerated family for the shape P_CUT aims at (it needs five things to line up, random generation reaches it about once
+    in a thousand scenarios): handler h0 on serial bus 0 awaits a child that parallel bus 1 processes inline with two handlers, h0 is cut
+    off by its timeout; the slower handler of the child would, if it survived, dispatch and await a grandchild on a serial bus that
+    is by then in the middle of another event."""
+    import itertools
+
+    for T0, extra, target, warm, ranks in itertools.product((0.13, 0.27, 0.41), (0.05, 0.2), (2, 0), (True, False), itertools.permutations((1, 2, 3))):
+        yield {
+            'buses': [{'par': False, 'hist': None, 'rank': ranks[0]}, {'par': True, 'hist': None, 'rank': ranks[1]}, {'par': False, 'hist': None, 'rank': ranks[2]}],
+            'fwd': [],
+            'handlers': [{'bus': i, 'pat': '*', 'kind': 'sync', 'prog': [], 'ret': 'none', 'probe': True} for i in range(3)]
+            + [
+                {'bus': 0, 'pat': 0, 'kind': 'async', 'prog': [['disp', 1, 1, 'await']], 'ret': 'idx'},
+                {'bus': 1, 'pat': 1, 'kind': 'async', 'prog': [['sleep', 1.0]], 'ret': 'idx'},
+                {'bus': 1, 'pat': 1, 'kind': 'async', 'prog': [['sleep', T0 + extra], ['disp', target, 2, 'await']], 'ret': 'idx'},
+                {'bus': target, 'pat': 2, 'kind': 'async', 'prog': [['sleep', 0.05]], 'ret': 'idx'},
+                {'bus': target, 'pat': 3, 'kind': 'async', 'prog': [['sleep', 1.0]], 'ret': 'idx'},
+            ],
+            'actors': [[['disp', 0, 0], ['sleep', 0.01], ['disp', target, 3], ['disp', target, 3]]],
+            'maxdepth': 2, 'cap': 40, 'warm': warm, 'timeouts': {'0': T0},
+        }
 
 
 def nontrivial(F):
@@ -56,6 +96,15 @@ def classes(F):
                     inv += 1
     if inv:
         cl.append('permitted-queue-jump-seen')
+    # an awaiting handler was cut off by its timeout while >= 2 handlers of the awaited event were in flight on a parallel bus
+    for (b, e, h), xs in F.exits.items():
+        for x in xs:
+            if F.tr[x]['how'] == 'cancelled':
+                aw = F.awaiting_at((b, e, h), x - 0.5)
+                # (the child's handlers are cancelled first, so their exit records precede the awaiter's at the same instant)
+                cut = [m for m, ys in F.exits.items() if m[1] == aw and F.par.get(m[0]) and any(F.tr[y]['how'] == 'cancelled' and F.tr[y]['t'] == F.tr[x]['t'] for y in ys)]
+                if aw is not None and len(cut) >= 2:
+                    cl.append('awaiter-timed-out-with-parallel-handlers-of-the-child-in-flight')
     return cl
 
 
